@@ -871,6 +871,7 @@ func runValidator(o *out, r *rng, thorough bool, pid string) {
 		// cached by one call must never be attributable to another message.
 		if pid == "C05" && hi%4 == 0 && os.Getenv("VERIF_SKIP_INFLIGHT") == "" {
 			inFlightScenario(o, e, r)
+			ctxEndsScenario(o, e, r)
 		}
 		cs := cList([]string{cPair("10", e.cmtTerm(e.cmts[10])), cPair("11", e.cmtTerm(e.cmts[11]))})
 		o.coqCase(fmt.Sprintf("history %d: %s", hi, strings.Join(desc, " | ")), fmt.Sprintf("val_history_ok 1 %s 2 %s", cs, cList(ops)))
@@ -950,5 +951,64 @@ func inFlightScenario(o *out, e *valEnv, r *rng) {
 				fmt.Sprintf("forged twin: fresh validator %v; long-lived validator during the in-flight validation %v, afterwards %v; valid message %v (fresh %v)", wantF, errMid, errAfter, errV, wantV))
 		}
 		o.count("C05-in-flight", fmt.Sprint(ph, round), true)
+	}
+}
+
+// cancelVerifier ends the validation's context from inside the first signature verification (the caller gave up, the
+// deadline passed): whatever the validator then reports, a VALID message must not be branded invalid -- peers are
+// penalised for invalid messages -- and the same message must be accepted when validated again.
+type cancelVerifier struct {
+	inner  gpbft.Verifier
+	mu     sync.Mutex
+	cancel context.CancelFunc
+}
+
+func (c *cancelVerifier) Verify(pk gpbft.PubKey, msg, sig []byte) error {
+	c.mu.Lock()
+	if c.cancel != nil {
+		c.cancel()
+		c.cancel = nil
+	}
+	c.mu.Unlock()
+	return c.inner.Verify(pk, msg, sig)
+}
+func (c *cancelVerifier) Aggregate(pks []gpbft.PubKey) (gpbft.Aggregate, error) {
+	return c.inner.Aggregate(pks)
+}
+
+func ctxEndsScenario(o *out, e *valEnv, r *rng) {
+	for _, ph := range []gpbft.Phase{gpbft.QUALITY_PHASE, gpbft.PREPARE_PHASE, gpbft.CONVERGE_PHASE, gpbft.COMMIT_PHASE, gpbft.DECIDE_PHASE} {
+		round := uint64(0)
+		if ph == gpbft.PREPARE_PHASE || ph == gpbft.COMMIT_PHASE {
+			round = uint64(r.intn(3))
+		}
+		if ph == gpbft.CONVERGE_PHASE {
+			round = uint64(1 + r.intn(2))
+		}
+		prog := gpbft.InstanceProgress{Instant: gpbft.Instant{ID: 10, Round: round, Phase: gpbft.QUALITY_PHASE}}
+		valid := e.validMsg(10, round, ph, e.chains[r.intn(2)])
+		if e.declValid(valid) != "" {
+			continue
+		}
+		cv := &cancelVerifier{inner: e.backend}
+		w := gpbft.VerifNewValidator(verifNet, cv, valCP{e}, func() gpbft.InstanceProgress { return prog }, caching.NewGroupedSet(4, 1000), 2)
+		for _, how := range []string{"cancelled", "cancelled-again"} {
+			ctx, cancel := context.WithCancel(e.ctx)
+			cv.mu.Lock()
+			cv.cancel = cancel
+			cv.mu.Unlock()
+			_, err1 := w.Validate(ctx, cloneMsg(valid))
+			cancel()
+			_, err2 := w.Validate(e.ctx, cloneMsg(valid))
+			in := map[string]any{"phase": ph.String(), "round": round, "justified": valid.Justification != nil, "scenario": "the validation's context ends while the sender's signature is being verified"}
+			if verdictCode(err1) == 1 {
+				o.violate("no valid message is ever branded invalid", "c05-valid-branded-invalid", in, fmt.Sprintf("context %s mid-validation: %v", how, err1))
+			}
+			if err2 != nil {
+				o.violate("the verdict depends only on the message, the committee and the current progress, never on which messages were validated earlier",
+					"c05-history-dependent", in, fmt.Sprintf("after a validation cut short by its context the valid message is rejected: %v", err2))
+			}
+			o.count("C05-context-ends", fmt.Sprint(ph, round, how), true)
+		}
 	}
 }
